@@ -157,6 +157,7 @@ func (h *httpContext) InspectServerBlocks(sourceFile string, serverBlocks []cask
 			if addrCopy.Path == "/" {
 				addrCopy.Path = ""
 			}
+			addrCopy.Scheme = "" // (requests are routed by host, port and path: http://h:p and https://h:p collide)
 			if n, err := strconv.Atoi(addrCopy.Port); err == nil {
 				addrCopy.Port = strconv.Itoa(n)
 			}
